@@ -37,6 +37,12 @@ func propC02(reps int) func(model.Case) hh.Verdict {
 			if res.NoIssues() != (len(spec.Issues) == 0) {
 				return hh.Fail("nil-ness: result nil=%v but %d violations expected", res.NoIssues(), len(spec.Issues))
 			}
+			// the result is the caller's: it lists exactly these violations also after the process went on with other
+			// failing executions (list- and map-returning ones)
+			processPrelude()
+			if again := res.Norm(false); !model.EqualIss(got, again) {
+				return hh.Fail("the returned issues changed while the caller held them and other executions ran (run %d): were %s, now %s", r, fmtIss(got), fmtIss(again))
+			}
 		}
 		v := hh.Verdict{Classes: append(shapeClasses(c.Root), "mode:"+c.Exec.Mode)}
 		paths := map[string]int{}
